@@ -1720,7 +1720,9 @@ def cases(rng, tier):
         out.append(mk_lzaff('l' if i % 3 else 'e', R, ops, rand_geom(rng, simple=(i % 7 == 0)), sl))
     # ---- TCK files larger than the 4 MB buffer through the public API (oracle only)
     if tier == 'quick':
-        out.append(mk_bigtck({'seed': rng.randrange(1 << 30), 'bufs': 1, 'edge': rng.choice([-1, 0, 1]), 'mmax': 300, 'extra': 40}))
+        # edge != 0: the second buffer starts mid-streamline (non-empty leftover) and holds many delimiters
+        for edge in (rng.choice([-1, -7, -40]), rng.choice([1, 2, 30])):
+            out.append(mk_bigtck({'seed': rng.randrange(1 << 30), 'bufs': 1, 'edge': edge, 'mmax': rng.choice([100, 300]), 'extra': 40}))
     else:
         for edge in (-1, 0, 1, 7):
             out.append(mk_bigtck({'seed': rng.randrange(1 << 30), 'bufs': 1, 'edge': edge, 'mmax': rng.choice([3, 40, 300]), 'extra': 500}))
